@@ -54,6 +54,8 @@ def _make_instance(spec: dict) -> Any:
         return lib.KwBlock(D, seed)
     if cls == "LateBlock":
         return lib.LateBlock(D, seed)
+    if cls == "NamedIdentity":
+        return lib.NamedIdentity(D, seed)
     if cls == "BaseAffine":
         return lib.BaseAffine(D, seed)
     if cls == "DerivedAffine":
@@ -93,6 +95,7 @@ def _mutate_instance(obj: Any, spec: dict, new_seed: int) -> bool:
 def build_callable(program: dict, pool: Pool, keep: list) -> Any:
     """Return fn(x, **input_params) for the generated composition."""
     import jax.numpy as jnp
+    import numpy as np
     from sim.fixtures import lib
 
     sites = program["sites"]
@@ -102,6 +105,10 @@ def build_callable(program: dict, pool: Pool, keep: list) -> Any:
         for i, s in enumerate(sites):
             full = y if s.get("chain", True) else x
             inp = full[:1] if s.get("halve") else full
+            if s.get("const_arg") is not None:
+                # the call site passes a compile-time CONSTANT of the same shape/dtype as the data
+                # (only generated for programs with concrete shapes, so there is no branching on shapes here)
+                inp = jnp.asarray(np.full(tuple(int(d) for d in inp.shape), float(s["const_arg"]), dtype=np.dtype(inp.dtype)))
             t = s["target"]
             kw = dict(s.get("kw") or {})
             if s.get("use_param") and "deterministic" in params:
@@ -110,6 +117,15 @@ def build_callable(program: dict, pool: Pool, keep: list) -> Any:
                 r = lib.fn_sin2(inp)
             elif t == "fn_scale":
                 r = lib.fn_scale(inp, **kw)
+            elif t == "fn_gain":
+                r = lib.fn_gain(inp, **kw)
+            elif t == "op_named":
+                # a decorated callable NAMED like an ONNX operator, between two inverse transposes
+                callee = lib.Relu if s.get("which", "fn") == "fn" else pool.inst[s["inst"]]
+                if s.get("sandwich", True):
+                    r = jnp.transpose(callee(jnp.transpose(inp, (1, 0))), (1, 0))
+                else:
+                    r = callee(inp)
             elif t == "fn_gate":
                 names = ["double", "negate"] if s.get("order", "dn") == "dn" else ["negate", "double"]
                 r = lib.fn_gate(inp, **{n: params.get(n, False) for n in names})
@@ -129,7 +145,7 @@ def build_callable(program: dict, pool: Pool, keep: list) -> Any:
 
 
 _SPEC_DEFAULTS = {"Block": {"act": "gelu"}, "UBlock": {"flip": False}, "EqxBlock": {"slope": 0.1}, "RecScale": {"depth": 1, "via_wrap": True}}
-_KW_DEFAULTS = {"fn_scale": {"factor": 2.0}, "KwBlock": {"scale": 1.0}}
+_KW_DEFAULTS = {"fn_scale": {"factor": 2.0}, "KwBlock": {"scale": 1.0}, "fn_gain": {"gain": 1}}
 
 
 def _norm_spec(spec: dict) -> str:
@@ -141,15 +157,18 @@ def _norm_spec(spec: dict) -> str:
 def site_value_key(s: dict, pool: Pool) -> tuple:
     """What a call site computes, by value (used for the sharing oracle);
     constructor / keyword defaults are filled in so that equal objects compare equal."""
-    if s["target"] in ("fn_sin2", "fn_scale", "fn_gate"):
-        obj: Any = s["target"]
+    if s["target"] == "op_named":
+        obj: Any = "Relu" if s.get("which", "fn") == "fn" else _norm_spec(pool.desc[s["inst"]])
+        return ("op_named", obj, "", bool(s.get("halve")), bool(s.get("sandwich", True)))
+    if s["target"] in ("fn_sin2", "fn_scale", "fn_gate", "fn_gain"):
+        obj = s["target"]
     elif "temp" in s:
         obj = _norm_spec(s["temp"])
     else:
         obj = _norm_spec(pool.desc[s["inst"]])
     kw = dict(_KW_DEFAULTS.get(s["target"], {}))
     kw.update(s.get("kw") or {})
-    return (s["target"], obj, cm.canon(kw), bool(s.get("halve")), bool(s.get("use_param")))
+    return (s["target"], obj, cm.canon(kw), bool(s.get("halve")), bool(s.get("use_param")))  # (a constant argument is data, not identity: sharing across const/dynamic sites is legitimate)
 
 
 def _without_function_plugins():
@@ -333,7 +352,19 @@ def run(plan: dict) -> dict:
             try:
                 got = oracle.ort_run(model, [xin], params)
             except Exception as e:
-                V("decorated_model_unrunnable", f"{type(e).__name__}: {str(e)[:200]}", op)
+                # a model the runtime refuses is a function-boundary matter only if the undecorated export of
+                # the same program runs (otherwise it is C03/C09's: e.g. double-precision constant typing)
+                ref_runs = False
+                if ref is not None:
+                    try:
+                        oracle.ort_run(ref, [xin], params0)
+                        ref_runs = True
+                    except Exception:
+                        ref_runs = False
+                if ref_runs:
+                    V("decorated_model_unrunnable", f"{type(e).__name__}: {str(e)[:200]}", op)
+                else:
+                    stats["probe_both_exports_unrunnable_or_no_reference"] += 1
                 break
             try:
                 jx = oracle.jax_run(fn, [xin], params, bool(program.get("x64")))
@@ -424,7 +455,7 @@ def run(plan: dict) -> dict:
 # coordinator: history generator
 # ---------------------------------------------------------------------------
 
-CLASSES = ["Block", "UBlock", "EqxBlock", "PlainScale", "KwBlock", "Outer", "Inner", "RecScale", "BaseAffine", "DerivedAffine"]
+CLASSES = ["Block", "UBlock", "EqxBlock", "PlainScale", "KwBlock", "Outer", "Inner", "RecScale", "BaseAffine", "DerivedAffine", "NamedIdentity"]
 
 
 def gen_history(seed: int, run: int, n_ops: int) -> list[dict]:
@@ -527,8 +558,13 @@ def gen_history(seed: int, run: int, n_ops: int) -> list[dict]:
                 v = r.random()
                 if pure_fn_only or v < 0.18:
                     w_ = r.random()
-                    if w_ < 0.4:
+                    if w_ < 0.25:
                         s: dict = {"target": "fn_sin2"}
+                    elif w_ < 0.33:
+                        s = {"target": "op_named", "which": "fn", "sandwich": r.random() < 0.8}
+                    elif w_ < 0.45:
+                        # keyword values that are equal (and hash-equal) but of different type
+                        s = {"target": "fn_gain", "kw": {"gain": r.choice([1, 1.0, True, 2, 2.0])} if r.random() < 0.8 else {}}
                     elif w_ < 0.6:
                         s = {"target": "fn_gate", "order": r.choice(["dn", "nd"])}
                     else:
@@ -542,6 +578,8 @@ def gen_history(seed: int, run: int, n_ops: int) -> list[dict]:
                     else:
                         iid = r.choice(ids)
                     s = {"target": live[iid]["cls"], "inst": iid}
+                    if live[iid]["cls"] == "NamedIdentity":
+                        s = {"target": "op_named", "which": "inst", "inst": iid, "sandwich": r.random() < 0.7}
                     if live[iid]["cls"] == "KwBlock":
                         s["kw"] = {"scale": r.choice([1.0, 2.0, 3.0])}
                         if r.random() < 0.3:
@@ -552,6 +590,9 @@ def gen_history(seed: int, run: int, n_ops: int) -> list[dict]:
                     s["halve"] = True
                 sites.append(s)
             program: dict = {"sites": sites, "shape": [r.choice([2, 2, "B", 3]), D], "opset": r.choice([23, 23, 21])}
+            if program["shape"][0] != "B" and r.random() < 0.3:
+                # one call site passes a compile-time constant where its siblings pass data (same key)
+                sites[r.randrange(len(sites))]["const_arg"] = r.choice([0.3, -0.7, 1.5])
             if pure_fn_only and r.random() < 0.5:
                 program["x64"] = True
             if any(q.get("use_param") for q in sites):
